@@ -73,13 +73,35 @@ fn ptype_name(p: PType) -> &'static str {
 
 /// Rebuild "a decoder in the same state" by feeding a fresh decoder every
 /// picture the real one accepted so far.
-fn replay_decoder(opts: u8, accepted: &[Vec<u8>]) -> Option<Slot> {
+/// One call made to the decoder under test: the bytes fed, the armed I/O fault,
+/// or a clean-up.
+#[derive(Clone)]
+enum Call {
+    Pic(Vec<u8>, Option<(u64, SrcFault)>),
+    Cleanup,
+}
+
+/// "A decoder in the same state": a fresh decoder taken through exactly the same
+/// sequence of calls (accepted AND rejected pictures, faults, clean-ups), so that
+/// any hidden per-instance state evolves identically.
+fn replay_decoder(opts: u8, calls: &[Call]) -> Option<Slot> {
     let mut s = Slot::new(opts);
-    for b in accepted {
-        s.new_reader();
-        s.feed(b);
-        if !s.decode().is_ok() {
-            return None;
+    for c in calls {
+        match c {
+            Call::Cleanup => {
+                let _ = s.cleanup();
+            }
+            Call::Pic(b, io) => {
+                s.new_reader();
+                s.feed(b);
+                if let Some((n, k)) = io {
+                    s.arm(*n, *k);
+                }
+                if let Outcome::Panic(_) = s.decode() {
+                    return None;
+                }
+                s.disarm_all();
+            }
         }
     }
     Some(s)
@@ -93,7 +115,7 @@ pub fn exec_c04(plan: &C04Plan, st: &mut Stats) -> Option<Violation> {
     let mut m_ref_name = String::from("none");
     // every accepted picture, for attribution: (name, snapshot, disposable)
     let mut gallery: Vec<(String, Snap)> = Vec::new();
-    let mut accepted_bytes: Vec<Vec<u8>> = Vec::new();
+    let mut calls: Vec<Call> = Vec::new();
     // Standard mode only: once a corrupted picture has been accepted, its header
     // (format, aspect ratio, modes) is what later headers are compared with, and
     // the decoder answers any difference with "unimplemented".  From then on a
@@ -113,6 +135,7 @@ pub fn exec_c04(plan: &C04Plan, st: &mut Stats) -> Option<Violation> {
                     return None;
                 }
                 st.inc("cleanups");
+                calls.push(Call::Cleanup);
                 st.states.insert(fnv1a(format!("cleanup/{}/{}", m_ref.is_some(), m_last != m_ref).as_bytes()));
                 if snap_last(&slot.state) != m_last {
                     return viol("clean-up changed the most recent picture", format!("step {si}"));
@@ -129,6 +152,8 @@ pub fn exec_c04(plan: &C04Plan, st: &mut Stats) -> Option<Violation> {
                 if let Some((n, k)) = io_fault {
                     slot.arm(*n, *k);
                 }
+                let calls_before = calls.len();
+                calls.push(Call::Pic(p.bytes.clone(), *io_fault));
                 let o = slot.decode();
                 let fired = slot.disarm_all() == 0 && io_fault.is_some();
                 if fired {
@@ -169,7 +194,7 @@ pub fn exec_c04(plan: &C04Plan, st: &mut Stats) -> Option<Violation> {
                             // needs cannot perturb the decoder under test: that would be C17's business)
                             let mut ps = s.clone();
                             ps.ptype = PType::P;
-                            deferred.push(Clause3 { step: si, note: p.note.clone(), accepted: accepted_bytes.len(), p_variant: encode(&ps).0, disposable_result: None, err: o.short() });
+                            deferred.push(Clause3 { step: si, note: p.note.clone(), accepted: calls_before, p_variant: encode(&ps).0, disposable_result: None, err: o.short() });
                         }
                         // Whether a valid picture is accepted at all is C02/C03's business, not
                         // C04's (which speaks about what happens to accepted and rejected pictures).
@@ -237,7 +262,7 @@ pub fn exec_c04(plan: &C04Plan, st: &mut Stats) -> Option<Violation> {
                         // clause 3, deferred (see above)
                         let mut ps = s.clone();
                         ps.ptype = PType::P;
-                        deferred.push(Clause3 { step: si, note: p.note.clone(), accepted: accepted_bytes.len(), p_variant: encode(&ps).0, disposable_result: Some((now.y.clone(), now.cb.clone(), now.cr.clone())), err: String::new() });
+                        deferred.push(Clause3 { step: si, note: p.note.clone(), accepted: calls_before, p_variant: encode(&ps).0, disposable_result: Some((now.y.clone(), now.cb.clone(), now.cr.clone())), err: String::new() });
                     }
                 } else {
                     st.inc("corrupted_or_faulted_picture_accepted");
@@ -252,7 +277,7 @@ pub fn exec_c04(plan: &C04Plan, st: &mut Stats) -> Option<Violation> {
                 }
                 m_last = Some(now.clone());
                 gallery.push((name, now));
-                accepted_bytes.push(p.bytes.clone());
+
                 if m_ref.is_some() && m_last != m_ref {
                     st.inc("probe.last_is_disposable");
                     if tr_eq_ref {
@@ -275,7 +300,7 @@ pub fn exec_c04(plan: &C04Plan, st: &mut Stats) -> Option<Violation> {
     // clause 3 on a fresh thread: fresh decoders fed the accepted history, then the
     // same bytes marked P
     let opts = plan.opts;
-    let acc = accepted_bytes.clone();
+    let acc = calls.clone();
     let res = std::thread::spawn(move || {
         let mut out: Vec<(usize, String, Option<bool>)> = Vec::new(); // (step, note, Some(planes equal) / None = P variant not accepted)
         for d in &deferred {
